@@ -1,7 +1,7 @@
 """C15 — mem conversions: partial-output contracts and pairing structure (structural clauses D1–D3)."""
 import os, re
 from mirlib import *
-import r_effect, t_writeonly, r_surr, r_lookahead, factsbuild, scan, r_kernel
+import r_effect, t_writeonly, r_surr, r_lookahead, factsbuild, scan, r_kernel, r_utf8store
 
 MANIFEST = {
     'category': 'other',
@@ -23,7 +23,8 @@ MANIFEST = {
             'same part of slices cut to the same min length, each iteration hands every sub-stride of the current element to the stride '
             'function with its own twin (or stores the current unit), the position counter advances by exactly the element width and offending '
             'units are reported at counter + in-stride position; stride functions answer None only when passed tests cover the whole stride. '
-            'Exactness of the converted values (arithmetic, SIMD lane operations) is not decided here.',
+            'Exactness of the converted values (arithmetic, SIMD lane operations) is not decided here. ' 
+            '(R-UTF8STORE) the hand-inlined UTF-8 writers (convert_utf16_to_utf8_partial_inner/_tail behind every UTF-16 -> UTF-8 conversion and the UTF-8 encoder, convert_latin1_to_utf8_partial, convert_unaligned_utf16_to_utf8 of the UTF-16 decoder, and the three multi-byte writers of Utf8Destination) store, for every scalar of the domain the path conditions leave (80-7FF, 800-FFFF, the supplementary planes through the shape-checked surrogate-pair formula), exactly the bytes of its UTF-8 encoding: each stored byte is evaluated as an exact piecewise function of the input and compared piece by piece over the whole domain; constant runs are one complete sequence (EF BF BD).',
     'note': 'Trusted: rustc MIR, mirx, rule library; the doc comments of src/mem.rs as the statement of the partial-output contract.',
     'technique': 'per-configuration effect analysis over the call graph + information-flow rule + exact interval extraction of surrogate tests',
 }
@@ -79,4 +80,5 @@ def run(rep, facts, tier):
         rep.floor('R-LOOKAHEAD', 'surrogate look-ahead sites in mem/utf_8', n, 2, c)
         scan.run_specs(rep, f, c, 'R-SCAN', ['mem::utf16_valid_up_to', 'utf_8::convert_utf8_to_utf16_up_to_invalid'])
         r_kernel.run(rep, f, c, 'R-KERNEL', ['copy', 'validate'])
+        r_utf8store.run(rep, f, c)
     return ('other', MANIFEST['text'], [])
